@@ -26,6 +26,8 @@ func aggNameOf(name, kind string) string {
 		return "safety"
 	case "frame":
 		return "frame"
+	case "table":
+		return o.Name
 	case "arith":
 		return "arith"
 	case "inv.init", "inv.keep":
@@ -141,7 +143,11 @@ func runFunctions(w *World, specs *Specs, contracts map[string]*Contract, keys [
 	for _, key := range keys {
 		fo := &funcOutcome{Key: key}
 		fn := w.Funcs[key]
-		if fn == nil {
+		if strings.HasPrefix(key, "footprint:") {
+			footprintOutcome(w, fo)
+		} else if strings.HasPrefix(key, "table:") {
+			tableOutcome(w, fo, kfs)
+		} else if fn == nil {
 			fo.VC = &VCResult{Key: key, Err: fmt.Errorf("function %s not found in /repo", key)}
 		} else {
 			g := newGen(w, specs, contracts)
@@ -157,7 +163,7 @@ func runFunctions(w *World, specs *Specs, contracts map[string]*Contract, keys [
 	}
 	var wg sync.WaitGroup
 	for _, fo := range vcs {
-		if fo.VC.Err != nil {
+		if fo.VC.Err != nil || fo.Res != nil {
 			continue
 		}
 		wg.Add(1)
@@ -620,4 +626,85 @@ func modelFor(vc *VCResult, o *Obl, dir string, timeoutMs int) string {
 
 func tryReplay(w *World, fo *funcOutcome, key, agg string, a *aggStatus, path string) bool {
 	return replayOnRealCode(w, fo, key, agg, a, path)
+}
+
+// tableOutcome evaluates a table obligation set: the literal in /repo against /verif/spec/tables/<name>.json.
+func tableOutcome(w *World, fo *funcOutcome, kfs []knownFinding) {
+	name := strings.TrimPrefix(fo.Key, "table:")
+	fo.VC = &VCResult{Key: fo.Key}
+	b, err := os.ReadFile(filepath.Join(verifDir(), "spec", "tables", name+".json"))
+	if err != nil {
+		fo.VC.Err = err
+		return
+	}
+	var ts tableSpec
+	if err := json.Unmarshal(b, &ts); err != nil {
+		fo.VC.Err = fmt.Errorf("table spec %s: %v", name, err)
+		return
+	}
+	rows, err := w.checkTable(&ts, nil)
+	if err != nil {
+		fo.VC.Err = err
+		return
+	}
+	fo.Res = map[int]OblResult{}
+	for i, r := range rows {
+		o := &Obl{Name: "row[" + r.Name + "]", Kind: "table", Offset: i, Func: fo.Key, Pos: strings.TrimPrefix(r.Pos, w.RepoDir+"/"),
+			Descr: fmt.Sprintf("%s[%s]: literal in /repo = %s ; expected (%s) = %s", ts.Table, r.Name, r.Actual, ts.Source, r.Expected)}
+		fo.VC.Obls = append(fo.VC.Obls, o)
+		st := "unsat"
+		if !r.OK {
+			st = "sat"
+			// a recorded finding tolerates exactly the recorded content of this row, nothing else
+			for _, kf := range kfs {
+				if kf.Func == fo.Key && kf.Obl == o.Name && kf.Region == "actual:"+r.Actual {
+					st = "unsat"
+				}
+			}
+		}
+		fo.Res[i] = OblResult{st, "const-eval", 0}
+	}
+	fo.VC.Trusted = []string{"table " + ts.Table + ": go/types constant evaluation of the composite literal; expected content transcribed by hand from " + ts.Source}
+}
+
+// footprintOutcome: the functions that read / write a field are exactly the listed ones (scan of the SSA of every module function).
+func footprintOutcome(w *World, fo *funcOutcome) {
+	name := strings.TrimPrefix(fo.Key, "footprint:")
+	fo.VC = &VCResult{Key: fo.Key}
+	b, err := os.ReadFile(filepath.Join(verifDir(), "spec", "footprints", name+".json"))
+	if err != nil {
+		fo.VC.Err = err
+		return
+	}
+	var fs footprintSpec
+	if err := json.Unmarshal(b, &fs); err != nil {
+		fo.VC.Err = err
+		return
+	}
+	readers, writers := w.fieldFootprint(fs.Field)
+	fo.Res = map[int]OblResult{}
+	add := func(what string, got map[string]bool, allowed []string) {
+		ok := map[string]bool{}
+		for _, a := range allowed {
+			ok[a] = true
+		}
+		var extra []string
+		for k := range got {
+			if !ok[k] {
+				extra = append(extra, k)
+			}
+		}
+		sort.Strings(extra)
+		i := len(fo.VC.Obls)
+		fo.VC.Obls = append(fo.VC.Obls, &Obl{Name: what, Kind: "table", Offset: i, Func: fo.Key,
+			Descr: fmt.Sprintf("field %s is %s only by %v; additional functions found: %v (%s)", fs.Field, what, allowed, extra, fs.Why)})
+		st := "unsat"
+		if len(extra) > 0 {
+			st = "sat"
+		}
+		fo.Res[i] = OblResult{st, "ssa-scan", 0}
+	}
+	add("written", writers, fs.Writers)
+	add("read", readers, fs.Readers)
+	fo.VC.Trusted = []string{"footprint of " + fs.Field + ": syntactic scan of go/ssa FieldAddr instructions in every function of the module (reflection/unsafe not considered)"}
 }
